@@ -62,7 +62,7 @@ Fault *Kernel::match_fault(CallId c, const std::string &path) {
 bool generic_fault(Kernel *k, Fault *f) {
   if (f->kind == "kill") { k->note_fault("crash_process"); Proc *p = k->cp(); k->kill_proc(p, 9); return true; /* not reached for self */ }
   if (f->kind == "crash") { k->machine_crash(f->image.empty() ? "random" : f->image); k->back_to_sched_forever(); }
-  if (f->kind == "stall") { k->note_fault("stalled_process"); k->block([] { return false; }, k->clock + f->arg, false); return true; }
+  if (f->kind == "stall") { k->note_fault("stalled_process"); k->block([] { return false; }, k->clock + f->arg, false); k->deliver_signals(); return true; }
   if (f->kind == "signal") { k->note_fault("signal"); k->post_signal(k->cp(), (int)f->arg); k->deliver_signals(); return true; }
   if (f->kind == "clock_fwd") { k->note_fault("clock_jump_fwd"); k->advance_clock_to(k->clock + f->arg); return true; }
   return false;
@@ -237,7 +237,7 @@ ssize_t Kernel::sys_read(int fd, void *buf, size_t n) {
         uint32_t c = ch.choose((uint32_t)av, CH_SPLIT, [&](Rng &r) -> uint32_t { if (!r.chance(sp)) return 0; return (uint32_t)(r.chance(0.5) ? r.below(std::min<size_t>(av, 4)) + (av > 4 ? av - 4 : 0) : r.below(av)); });
         k = av - c;  // choice 0 = everything available
         if (k < 1) k = 1;
-        if (k < av) note_fault("net_segmentation");
+        if (k < av) note_fault(of->kind == O_SOCK ? "net_segmentation" : "pipe_read_split");
       }
       memcpy(buf, pp->buf.data() + pp->rdpos, k);
       pp->rdpos += k; pp->total_read += k;
